@@ -73,7 +73,7 @@ def _(u):
     u.canary("step.mask-unchanged", out["action_mask"].at(b, n) == pre["action_mask"].at(b, n))
 
 
-@unit("dpp.rowlocal.step", file=D, func="DPPEnv._step", props=("C04",))
+@unit("dpp.rowlocal.step", file=D, func="DPPEnv._step", props=("C04", "C14"))
 def _(u):
     N = u.dim("N")
     Q = u.scalar("max_decaps", "i")
